@@ -4,6 +4,7 @@
 // Builds: plain (functional oracle), asan (no invalid access under any schedule), tsan (no data race report under any schedule).
 #include "solver_world.hpp"
 #include "vomp/selftest.hpp"
+#include "contact_common.hpp"
 #include "cell_divider.hpp"
 #include "mesh_writer.hpp"
 #include "vomp/explorer.hpp"
@@ -79,6 +80,26 @@ static std::string scenario_write(int ncells) {
     return out;
 }
 
+// ------------------------------------------------------------------------------------------------ (f) the contact phase of the build's contact model on interpenetrating cells
+// Interacting cells are outside the bit-identity clause (the order of the atomic additions is free), so the outcome is judged by what every order must respect: the contact forces
+// add up to zero and agree with the single-threaded run to rounding.  The same executions run under ThreadSanitizer: an unsynchronised access to a node shared by two cells is a race
+// in every schedule, whether or not this schedule loses the update.
+static std::vector<vec3> g_contact_ref;
+static std::string scenario_contact(int ncells) {
+    std::vector<cell_ptr> L; auto mk = [&](double x, double y, double z, short type, unsigned id) { auto t = sc::make_cell_type(type, 3); t->surface_coupling_max_curvature_ = 1e30; for (auto& f : t->face_types_) { f.adherence_strength_ = 2.0; f.repulsion_strength_ = 3.0; } L.push_back(sc::make_cell(sc::translated(sc::icosphere(1), x, y, z), id, t, true)); };
+    const bool springs = CONTACT_MODEL_INDEX == 0;   // the spring model repels epithelial cells too; the coupling models couple them, so there the neighbours are lumen cells
+    mk(0, 0, 0, 0, 0); mk(1.85, 0.05, -0.02, springs ? 0 : 2, 1); if (ncells > 2) mk(0.92, 1.6, 0.03, springs ? 0 : 2, 2); if (ncells > 3) mk(0.9, 0.55, 1.6, 0, 3);     // mutually interpenetrating by less than the repulsion cut-off, so that nodes are repelled AND are vertices of repelled faces
+    cx::prepare(L); global_simulation_parameters sp = sc::make_sim_params("unused", 0.3); sp.contact_cutoff_adhesion_ = 0.25; sp.contact_cutoff_repulsion_ = 0.25; cx::Model model(sp); cx::zero_forces(L);
+    model.run(L);
+    std::vector<vec3> F; vec3 net(0, 0, 0); double sumabs = 0, scale = 0; for (auto& c : L) for (node& n : c->node_lst_) { vec3 f = n.is_used_ ? n.force_ : vec3(0, 0, 0); F.push_back(f); net = net + f; sumabs += f.norm(); scale = std::max(scale, f.norm()); }
+    for (auto& c : L) c->clear_data();
+    if (!(sumabs > 0)) return "INTERNAL no contact force was produced (vacuous)";
+    if (vomp::mode() == vomp::MODE_SERIAL) { g_contact_ref = F; return "ok"; }
+    char b[200]; if (net.norm() > 1e-9 * sumabs) { snprintf(b, sizeof b, "contact-forces-do-not-add-up-to-zero: |sum F| = %.3g of sum|F| = %.3g", net.norm(), sumabs); return b; }
+    if (F.size() == g_contact_ref.size()) for (size_t i = 0; i < F.size(); i++) if ((F[i] - g_contact_ref[i]).norm() > 1e-9 * (scale + 1e-300)) { snprintf(b, sizeof b, "contact-force-differs-from-the-single-threaded-run-beyond-rounding: node slot %zu", i); return b; }
+    return "ok";
+}
+
 // ------------------------------------------------------------------------------------------------ (d) shared node: atomic force accumulation + locked coupling
 static std::string scenario_shared_node(int team) {
     static node shared(0., 0., 0., 0u); shared.force_.reset();
@@ -116,6 +137,10 @@ static void explore(Result& R) {
         subs.push_back({"peh n=" + std::to_string(n) + " failing=" + std::to_string(mask) + " T=" + std::to_string(T), T, 2, [n, mask] { return scenario_peh(n, mask); }, [n, mask](const std::string& o) { return judge_peh(o, n, mask); }, nullptr, ""}); } }
     // (d)
     for (int T = 2; T <= 3; T++) subs.push_back({"shared-node T=" + std::to_string(T), T, 2, [T] { return scenario_shared_node(T); }, nullptr, nullptr, "@serial"});
+    // (f)
+    for (int nc : {2, 3}) for (int T : {2, 3}) { if (T > nc) continue; subs.push_back({"contact phase (model " + std::to_string(CONTACT_MODEL_INDEX) + "), " + std::to_string(nc) + " interpenetrating cells, T=" + std::to_string(T), T, th ? 3 : 2, [nc] { return scenario_contact(nc); }, [](const std::string& o) { return o == "ok" ? std::string() : o; }, nullptr, "@serial"}); }
+    if (CONTACT_MODEL_INDEX != 1) { std::vector<Sub> only; for (auto& x : subs) if (x.name.rfind("contact phase", 0) == 0) only.push_back(x); subs = only; }   // the other contact-model builds run the contact sub-check only
+    else {
     // (e)
     for (int T : {2, 3}) subs.push_back({"mesh_writer::write, three cells with free slots, T=" + std::to_string(T), T, th ? 2 : 1, [] { return scenario_write(3); }, nullptr, nullptr, "@serial"});
     // (b)
@@ -123,6 +148,7 @@ static void explore(Result& R) {
     // (a)
     for (int T : {2, 3}) { if (!th && T == 3) continue; subs.push_back({"run_iteration x2, three non-interacting cells, T=" + std::to_string(T), T, th ? 2 : 1, [] { return scenario_iterations(2); }, nullptr, hash_world, "@serial"}); }
     if (th) subs.push_back({"run_iteration x2, three non-interacting cells, T=4", 4, 1, [] { return scenario_iterations(2); }, nullptr, hash_world, "@serial"});
+    }
 
     // the runtime and the explorer first show that they find what they are there to find
     if (R.args.shard == 0 && R.args.variant.find("tsan") == std::string::npos) { /* the kernels race on purpose: not under the race detector */ vomp_selftest::Report st = vomp_selftest::run(); R["selftest_schedules"] = st.schedules; R.strings["explorer_selftest"] = st.detail; if (!st.error.empty()) { R.internal_error = st.error; return; } }
